@@ -32,6 +32,9 @@ fn circuits() -> Vec<(String, Graph)> {
     // a diagram whose boundaries carry Hadamard edges / connect straight to each other
     let mut g = Graph::new(); let (i, o) = (g.add_vertex(VType::B), g.add_vertex(VType::B)); g.add_edge_with_type(i, o, EType::H); g.set_inputs(vec![i]); g.set_outputs(vec![o]);
     out.push(("hadamard wire".into(), g));
+    // diagrams with a non-real global scalar (so that a missing conjugation shows)
+    let extra: Vec<(String, Graph)> = out.iter().take(7).skip(1).map(|(n, g)| { let mut h = g.clone(); *h.scalar_mut() *= quizx::scalar::Scalar4::new([1, 2, 0, 0], -1); (format!("{} with scalar (1+2w)/2", n), h) }).collect();
+    out.extend(extra);
     out
 }
 
